@@ -100,18 +100,22 @@ Proof.
   rewrite <- seq_shift, map_map. cbn [nth]. apply IH. lia.
 Qed.
 
+Lemma xor_map a b : length a <= length b ->
+  map (fun i => N.lxor (nth i a 0%N) (nth i b 0%N)) (seq 0 (length a)) = xor_bytes a b.
+Proof. intros H. rewrite <- (concat_map_singleton (fun i => N.lxor (nth i a 0%N) (nth i b 0%N))). apply xor_loop. exact H. Qed.
+
 Lemma gen_encrypt_frame_xor_eq frame ks n :
   n = length frame -> length frame <= length ks -> gen_encrypt_frame_xor frame ks n = xor_bytes frame ks.
 Proof.
-  intros -> H. unfold gen_encrypt_frame_xor. unfold py_concat. py_unfold. cbn [app].
-  apply xor_loop. exact H.
+  intros -> H. unfold gen_encrypt_frame_xor. py_unfold. cbn [app].
+  first [apply xor_map | apply xor_loop]; exact H.
 Qed.
 
 Lemma gen_encrypt_fopts_xor_eq fopts ks :
   length fopts <= length ks -> gen_encrypt_fopts_xor fopts ks = xor_bytes fopts ks.
 Proof.
-  intros H. unfold gen_encrypt_fopts_xor. unfold py_concat. py_unfold. cbn [app].
-  apply xor_loop. exact H.
+  intros H. unfold gen_encrypt_fopts_xor. py_unfold. cbn [app].
+  first [apply xor_map | apply xor_loop]; exact H.
 Qed.
 
 Lemma gen_encrypt_fopts_block_eq addr fcnt uplink :
